@@ -120,7 +120,7 @@ func (w *World) newConcShared(stepSeed string) *concShared {
 			c.docs = append(c.docs, doc)
 			basic := Swarm{Patches: []string{"add-public-keys", "remove-public-keys", "add-services", "remove-services", "add-also-known-as", "remove-also-known-as", "replace"}}
 			ps := resolveForGen(w.Pool, genPatches(r, w.Pool, &basic, 3, &other))
-			if rj := r.Stream("ietf"); rj.Chance(1, 2) {
+			if rj := r.Stream("ietf"); rj.Chance(2, 3) {
 				// RFC 6902 lists too: ordinary ones, and ones on which the RFC 6902 library panics (the composer turns the panic into an
 				// error: whatever it holds at that moment - buffers, pooled objects - is released on an unusual path)
 				ps = append(ps, map[string]any{"action": "ietf-json-patch", "patches": genRFC6902Clean(rj, doc)})
@@ -552,6 +552,19 @@ func GenConcurrent(seed uint64, cold bool, pool *Pool) *Plan {
 			}
 		}
 		p.Steps = append(p.Steps, Step{Op: STask, Node: t, Args: map[string]any{"calls": calls}})
+	}
+	// every task also applies patch lists to documents, twice: whatever the composer keeps between calls (buffers, pooled
+	// objects) is handed from task to task
+	if r.Chance(1, 2) {
+		for t := 0; t < nt; t++ {
+			st := &p.Steps[len(p.Steps)-nt+t]
+			calls := st.Args["calls"].([]any)
+			for n := 0; n < 2; n++ {
+				k := r.Intn(len(calls) + 1)
+				calls = append(calls[:k:k], append([]any{map[string]any{"c": "compose", "i": r.Intn(10)}}, calls[k:]...)...)
+			}
+			st.Args["calls"] = calls
+		}
 	}
 	// siblings of one long-form DID resolved by different tasks at the same time
 	if nt >= 2 {
